@@ -6,7 +6,8 @@ From BV Require Import Base.Prelude Shell.Syntax Shell.ModelExec Shell.SpecExec 
 (** The simulation, for every fuel, command, position stack, loop context and state: brush's
     interpreter run with [suppress_errexit := exempt stk] and bash's run at position stack [stk]
     end the same way ([BreakLoop k] <-> [breaking = k+1], ...), with the same [$?] and output,
-    as long as no divergence point (ghost mark) was passed. *)
+    as long as the one remaining divergence point (ghost mark [GCond]: loop left from its
+    condition with a status different from the last body's) was not passed. *)
 Theorem c02_sim_exec : forall fuel,
   (forall c stk ctx l w, scope_cmd ctx c = [] -> funs_ok (sh w) -> (length ctx <= l)%nat ->
      sim (expect_c c stk ctx l) (exec fuel c (exempt stk) w) (sexec fuel c stk (emb w 0 0 l))) /\
@@ -50,13 +51,17 @@ Theorem c02_cf_refuted_continue_in_condition : differs 20 w_cont_cond /\ scope_p
 Proof. exact cont_cond_refuted. Qed.
 Theorem c02_cf_refuted_function_break : differs 20 w_fn_break /\ scope_program w_fn_break = [RStray].
 Proof. exact fn_break_refuted. Qed.
-Theorem c02_cf_refuted_stage_flow : differs 20 w_stage_leak /\ ghost_of (run_model 20 w_stage_leak) = [GLeak].
-Proof. exact stage_leak_refuted. Qed.
-Theorem c02_cf_refuted_bang_exit : differs 20 w_bang_exit /\ ghost_of (run_model 20 w_bang_exit) = [GBang].
-Proof. exact bang_exit_refuted. Qed.
 Theorem c02_cf_refuted_condition_status : differs 20 w_cond_status /\ ghost_of (run_model 20 w_cond_status) = [GCond].
 Proof. exact cond_status_refuted. Qed.
 Print Assumptions c02_cf_refuted_stray.
+
+(** regressions for the repaired defects (fix: pipeline-stage control flow, fix: `! exit n`):
+    the former refutation witnesses now agree with the specification *)
+Theorem c02_regress_stage_flow : agrees 20 w_stage_leak /\ obs_model (run_model 20 w_stage_leak) = Some (ENormal, 0%nat, [EMark 1]).
+Proof. exact stage_leak_repaired. Qed.
+Theorem c02_regress_bang_exit : agrees 20 w_bang_exit /\ obs_model (run_model 20 w_bang_exit) = Some (ENormal, 0%nat, [EProbe 3]).
+Proof. exact bang_exit_repaired. Qed.
+Print Assumptions c02_regress_bang_exit.
 
 Theorem c02_exitcode_roundtrip : forall b, (b < 256)%nat -> to_u8 (of_u8 b) = b.
 Proof. exact exitcode_roundtrip. Qed.
